@@ -5,8 +5,15 @@
     its derivatives are external). *)
 From Coq Require Import Reals Lra.
 From WG Require Import Lib.NumpySem Lib.EosTemplate.
-From GenC10 Require Import Thermo.
+From GenC10 Require Import Thermo ThermoFacts.
+From Coq Require Import String List.
 Local Open Scope R_scope.
+
+(* closers that do not depend on the syntactic shape of the generated bodies *)
+Ltac unf := repeat progress unfold eHighT, wHighT, deHighT, eLowT, wLowT, deLowT.
+Ltac close_m := first [reflexivity | ring | (unfold Rdiv; ring) | lra
+                      | (f_equal; first [reflexivity | ring | (unfold Rdiv; ring)])
+                      | (f_equal; f_equal; first [reflexivity | ring | (unfold Rdiv; ring)])].
 
 Section C10.
 Variable e : env.
@@ -34,7 +41,7 @@ Proof. unfold ddpHighT, DDP. repeat (match goal with |- context [Rlt_dec ?x ?y] 
 Lemma deHighT_is_DE s T :
   deHighT e s T = DE (TMinHighT s) (TMaxHighT s) (ddfHigh e) (muMinHighT s) (aMinHighT s)
                            (muMaxHighT s) (aMaxHighT s) T.
-Proof. unfold deHighT, DE. rewrite ddpHighT_is_DDP. reflexivity. Qed.
+Proof. unfold DE. rewrite <- ddpHighT_is_DDP. unf. ring. Qed.
 Lemma csqHighT_is_CSQ s T :
   csqHighT e s T = CSQ (TMinHighT s) (TMaxHighT s) (dfHigh e) (ddfHigh e) (muMinHighT s)
                                     (aMinHighT s) (muMaxHighT s) (aMaxHighT s) T.
@@ -48,7 +55,7 @@ Lemma identities_High s T :
   eHighT e s T = T * dpHighT e s T - pHighT e s T /\
   wHighT e s T = T * dpHighT e s T /\
   deHighT e s T = T * ddpHighT e s T.
-Proof. unfold eHighT, wHighT, deHighT. repeat split; ring. Qed.
+Proof. unf. repeat split; ring. Qed.
 
 Hypothesis Hab : a < b.
 Hypothesis Ha : 0 < a.
@@ -72,7 +79,8 @@ Proof.
   { unfold ddpHighT. rewrite E1, E2. destruct (Rlt_dec T a); [lra|]. destruct (Rlt_dec b T); [lra|ring]. }
   repeat split; try assumption.
   unfold csqHighT. rewrite E1, E2. destruct (Rlt_dec T a); [lra|]. destruct (Rlt_dec b T); [lra|].
-  unfold deHighT. rewrite dp, ddp. reflexivity.
+  rewrite dp. replace (deHighT e s T) with (T * ddpHighT e s T) by (unf; ring).
+  rewrite ddp. reflexivity.
 Qed.
 
 (** the state after setExtrapolate *)
@@ -94,18 +102,18 @@ Proof. intros E1 E2 HT. apply (High_in s T E1 E2 HT). Qed.
 
 Lemma matched_lo_High : matched (fHigh e) (dfHigh e) (ddfHigh e) a (muMinHighT S) (aMinHighT S) (epsilonMinHighT S).
 Proof.
-  unfold matched, S, setExtrapolate. autorewrite with setExtrapolate_db. unfold wHighT.
+  unfold matched, S, setExtrapolate. autorewrite with setExtrapolate_db. unf.
   repeat rewrite in_csq_High by side_High. repeat rewrite in_dp_High by side_High.
   repeat rewrite in_p_High by side_High.
-  repeat split; reflexivity.
+  repeat split; close_m.
 Qed.
 
 Lemma matched_hi_High : matched (fHigh e) (dfHigh e) (ddfHigh e) b (muMaxHighT S) (aMaxHighT S) (epsilonMaxHighT S).
 Proof.
-  unfold matched, S, setExtrapolate. autorewrite with setExtrapolate_db. unfold wHighT.
+  unfold matched, S, setExtrapolate. autorewrite with setExtrapolate_db. unf.
   repeat rewrite in_csq_High by side_High. repeat rewrite in_dp_High by side_High.
   repeat rewrite in_p_High by side_High.
-  repeat split; reflexivity.
+  repeat split; close_m.
 Qed.
 
 (** continuity across both ends of the tabulated range *)
@@ -178,6 +186,31 @@ Proof.
     apply DP_deriv_in; [lra|]. apply Hdf. lra.
 Qed.
 
+(** de/dT reported by the code is the derivative of the reported energy density *)
+Lemma e_derivative_High T : 0 < T ->
+  (a <= T <= b -> derivable_pt_lim (fHigh e) T ((dfHigh e) T)) ->
+  (a <= T <= b -> derivable_pt_lim (dfHigh e) T ((ddfHigh e) T)) ->
+  derivable_pt_lim (eHighT e S) T (deHighT e S T).
+Proof.
+  intros HT Hf Hdf. destruct (derivatives_High T HT Hf Hdf) as [D1 D2].
+  destruct (identities_High S T) as [_ [_ Hde]]. rewrite Hde.
+  eapply derivable_pt_lim_ext; [intro y; apply (proj1 (identities_High S y))|].
+  apply (energy_deriv (pHighT e S) (dpHighT e S)); assumption.
+Qed.
+
+(** cs^2 itself is continuous at both ends (two-sided) *)
+Lemma csq_cont_High :
+  (continuity_pt (dfHigh e) a -> continuity_pt (ddfHigh e) a -> continuity_pt (csqHighT e S) a) /\
+  (continuity_pt (dfHigh e) b -> continuity_pt (ddfHigh e) b -> continuity_pt (csqHighT e S) b).
+Proof.
+  destruct S_range_High as [Ra Rb]. assert (Hle : a <= b) by lra.
+  split; intros C1 C2.
+  - eapply continuity_pt_ext; [intro; apply csqHighT_is_CSQ|]. rewrite Ra, Rb.
+    eapply CSQ_cont_lo; first [eassumption | lra | exact 0 | exact (fun _ => 0)].
+  - eapply continuity_pt_ext; [intro; apply csqHighT_is_CSQ|]. rewrite Ra, Rb.
+    eapply CSQ_cont_hi; first [eassumption | lra | exact 0 | exact (fun _ => 0)].
+Qed.
+
 Lemma p_in_range_High T : a <= T <= b -> pHighT e S T = - (fHigh e) T.
 Proof. intro H. apply (High_in S T (proj1 S_range_High) (proj2 S_range_High) H). Qed.
 End High.
@@ -203,7 +236,7 @@ Proof. unfold ddpLowT, DDP. repeat (match goal with |- context [Rlt_dec ?x ?y] =
 Lemma deLowT_is_DE s T :
   deLowT e s T = DE (TMinLowT s) (TMaxLowT s) (ddfLow e) (muMinLowT s) (aMinLowT s)
                            (muMaxLowT s) (aMaxLowT s) T.
-Proof. unfold deLowT, DE. rewrite ddpLowT_is_DDP. reflexivity. Qed.
+Proof. unfold DE. rewrite <- ddpLowT_is_DDP. unf. ring. Qed.
 Lemma csqLowT_is_CSQ s T :
   csqLowT e s T = CSQ (TMinLowT s) (TMaxLowT s) (dfLow e) (ddfLow e) (muMinLowT s)
                                     (aMinLowT s) (muMaxLowT s) (aMaxLowT s) T.
@@ -217,7 +250,7 @@ Lemma identities_Low s T :
   eLowT e s T = T * dpLowT e s T - pLowT e s T /\
   wLowT e s T = T * dpLowT e s T /\
   deLowT e s T = T * ddpLowT e s T.
-Proof. unfold eLowT, wLowT, deLowT. repeat split; ring. Qed.
+Proof. unf. repeat split; ring. Qed.
 
 Hypothesis Hab : a < b.
 Hypothesis Ha : 0 < a.
@@ -241,7 +274,8 @@ Proof.
   { unfold ddpLowT. rewrite E1, E2. destruct (Rlt_dec T a); [lra|]. destruct (Rlt_dec b T); [lra|ring]. }
   repeat split; try assumption.
   unfold csqLowT. rewrite E1, E2. destruct (Rlt_dec T a); [lra|]. destruct (Rlt_dec b T); [lra|].
-  unfold deLowT. rewrite dp, ddp. reflexivity.
+  rewrite dp. replace (deLowT e s T) with (T * ddpLowT e s T) by (unf; ring).
+  rewrite ddp. reflexivity.
 Qed.
 
 (** the state after setExtrapolate *)
@@ -263,18 +297,18 @@ Proof. intros E1 E2 HT. apply (Low_in s T E1 E2 HT). Qed.
 
 Lemma matched_lo_Low : matched (fLow e) (dfLow e) (ddfLow e) a (muMinLowT S) (aMinLowT S) (epsilonMinLowT S).
 Proof.
-  unfold matched, S, setExtrapolate. autorewrite with setExtrapolate_db. unfold wLowT.
+  unfold matched, S, setExtrapolate. autorewrite with setExtrapolate_db. unf.
   repeat rewrite in_csq_Low by side_Low. repeat rewrite in_dp_Low by side_Low.
   repeat rewrite in_p_Low by side_Low.
-  repeat split; reflexivity.
+  repeat split; close_m.
 Qed.
 
 Lemma matched_hi_Low : matched (fLow e) (dfLow e) (ddfLow e) b (muMaxLowT S) (aMaxLowT S) (epsilonMaxLowT S).
 Proof.
-  unfold matched, S, setExtrapolate. autorewrite with setExtrapolate_db. unfold wLowT.
+  unfold matched, S, setExtrapolate. autorewrite with setExtrapolate_db. unf.
   repeat rewrite in_csq_Low by side_Low. repeat rewrite in_dp_Low by side_Low.
   repeat rewrite in_p_Low by side_Low.
-  repeat split; reflexivity.
+  repeat split; close_m.
 Qed.
 
 (** continuity across both ends of the tabulated range *)
@@ -347,6 +381,31 @@ Proof.
     apply DP_deriv_in; [lra|]. apply Hdf. lra.
 Qed.
 
+(** de/dT reported by the code is the derivative of the reported energy density *)
+Lemma e_derivative_Low T : 0 < T ->
+  (a <= T <= b -> derivable_pt_lim (fLow e) T ((dfLow e) T)) ->
+  (a <= T <= b -> derivable_pt_lim (dfLow e) T ((ddfLow e) T)) ->
+  derivable_pt_lim (eLowT e S) T (deLowT e S T).
+Proof.
+  intros HT Hf Hdf. destruct (derivatives_Low T HT Hf Hdf) as [D1 D2].
+  destruct (identities_Low S T) as [_ [_ Hde]]. rewrite Hde.
+  eapply derivable_pt_lim_ext; [intro y; apply (proj1 (identities_Low S y))|].
+  apply (energy_deriv (pLowT e S) (dpLowT e S)); assumption.
+Qed.
+
+(** cs^2 itself is continuous at both ends (two-sided) *)
+Lemma csq_cont_Low :
+  (continuity_pt (dfLow e) a -> continuity_pt (ddfLow e) a -> continuity_pt (csqLowT e S) a) /\
+  (continuity_pt (dfLow e) b -> continuity_pt (ddfLow e) b -> continuity_pt (csqLowT e S) b).
+Proof.
+  destruct S_range_Low as [Ra Rb]. assert (Hle : a <= b) by lra.
+  split; intros C1 C2.
+  - eapply continuity_pt_ext; [intro; apply csqLowT_is_CSQ|]. rewrite Ra, Rb.
+    eapply CSQ_cont_lo; first [eassumption | lra | exact 0 | exact (fun _ => 0)].
+  - eapply continuity_pt_ext; [intro; apply csqLowT_is_CSQ|]. rewrite Ra, Rb.
+    eapply CSQ_cont_hi; first [eassumption | lra | exact 0 | exact (fun _ => 0)].
+Qed.
+
 Lemma p_in_range_Low T : a <= T <= b -> pLowT e S T = - (fLow e) T.
 Proof. intro H. apply (Low_in S T (proj1 S_range_Low) (proj2 S_range_Low) H). Qed.
 End Low.
@@ -354,7 +413,7 @@ End Low.
 (** ** the transition strength is assembled from the two phases as documented *)
 Lemma alpha_def s T :
   alpha e s T = (eHighT e s T - eLowT e s T - (pHighT e s T - pLowT e s T) / csqLowT e s T) / 3 / wHighT e s T.
-Proof. reflexivity. Qed.
+Proof. unfold alpha. unf. first [reflexivity | ring]. Qed.
 End C10.
 
 (** * Property theorems *)
@@ -452,16 +511,68 @@ Theorem reported_derivatives_are_derivatives : forall e s0,
 Proof. intros e s0. split; intros; [apply derivatives_High|apply derivatives_Low]; assumption. Qed.
 Print Assumptions reported_derivatives_are_derivatives.
 
+Theorem reported_de_is_derivative_of_e : forall e s0,
+  (tabMinHigh e < tabMaxHigh e -> 0 < tabMinHigh e ->
+   dfHigh e (tabMinHigh e) < 0 -> ddfHigh e (tabMinHigh e) < 0 ->
+   dfHigh e (tabMaxHigh e) < 0 -> ddfHigh e (tabMaxHigh e) < 0 ->
+   forall T, 0 < T ->
+   (tabMinHigh e <= T <= tabMaxHigh e -> derivable_pt_lim (fHigh e) T (dfHigh e T)) ->
+   (tabMinHigh e <= T <= tabMaxHigh e -> derivable_pt_lim (dfHigh e) T (ddfHigh e T)) ->
+   derivable_pt_lim (eHighT e (setExtrapolate e s0)) T (deHighT e (setExtrapolate e s0) T)) /\
+  (tabMinLow e < tabMaxLow e -> 0 < tabMinLow e ->
+   dfLow e (tabMinLow e) < 0 -> ddfLow e (tabMinLow e) < 0 ->
+   dfLow e (tabMaxLow e) < 0 -> ddfLow e (tabMaxLow e) < 0 ->
+   forall T, 0 < T ->
+   (tabMinLow e <= T <= tabMaxLow e -> derivable_pt_lim (fLow e) T (dfLow e T)) ->
+   (tabMinLow e <= T <= tabMaxLow e -> derivable_pt_lim (dfLow e) T (ddfLow e T)) ->
+   derivable_pt_lim (eLowT e (setExtrapolate e s0)) T (deLowT e (setExtrapolate e s0) T)).
+Proof. intros e s0. split; intros; [apply e_derivative_High|apply e_derivative_Low]; assumption. Qed.
+Print Assumptions reported_de_is_derivative_of_e.
+
+Theorem sound_speed_continuous_at_range_ends : forall e s0,
+  (tabMinHigh e < tabMaxHigh e -> 0 < tabMinHigh e ->
+   ddfHigh e (tabMinHigh e) < 0 -> ddfHigh e (tabMaxHigh e) < 0 ->
+   let S := setExtrapolate e s0 in let a := tabMinHigh e in let b := tabMaxHigh e in
+   (continuity_pt (dfHigh e) a -> continuity_pt (ddfHigh e) a -> continuity_pt (csqHighT e S) a) /\
+   (continuity_pt (dfHigh e) b -> continuity_pt (ddfHigh e) b -> continuity_pt (csqHighT e S) b)) /\
+  (tabMinLow e < tabMaxLow e -> 0 < tabMinLow e ->
+   ddfLow e (tabMinLow e) < 0 -> ddfLow e (tabMaxLow e) < 0 ->
+   let S := setExtrapolate e s0 in let a := tabMinLow e in let b := tabMaxLow e in
+   (continuity_pt (dfLow e) a -> continuity_pt (ddfLow e) a -> continuity_pt (csqLowT e S) a) /\
+   (continuity_pt (dfLow e) b -> continuity_pt (ddfLow e) b -> continuity_pt (csqLowT e S) b)).
+Proof. intros e s0. split; intros; [apply csq_cont_High|apply csq_cont_Low]; assumption. Qed.
+Print Assumptions sound_speed_continuous_at_range_ends.
+
 Theorem pressure_is_minus_table_in_range : forall e s0 T,
   (tabMinHigh e <= T <= tabMaxHigh e -> pHighT e (setExtrapolate e s0) T = - fHigh e T) /\
   (tabMinLow e <= T <= tabMaxLow e -> pLowT e (setExtrapolate e s0) T = - fLow e T).
 Proof. intros e s0 T. split; intro H; [apply p_in_range_High|apply p_in_range_Low]; exact H. Qed.
 Print Assumptions pressure_is_minus_table_in_range.
 
+(** frame condition (facts extracted from every file under src/WallGo on this run): the 16
+    modelled attributes are assigned only by __init__ and setExtrapolate of the class itself --
+    no other method, no subclass, no other module, no setattr/__dict__ -- and setExtrapolate
+    assigns all of them, so the state every other theorem speaks about is the state the
+    EOS functions read until the next call of setExtrapolate *)
+Theorem only_init_and_setExtrapolate_write_the_modelled_state :
+  forallb (fun w => existsb (String.eqb (fst w)) ("__init__" :: "setExtrapolate" :: nil)%string)
+          writers = true /\
+  (exists ws, In ("setExtrapolate"%string, ws) writers /\
+              forallb (fun a => existsb (String.eqb a) ws) modelled_attrs = true) /\
+  foreign_writers = nil /\ dynamic_writes = nil.
+Proof.
+  split; [vm_compute; reflexivity|]. split; [|split; reflexivity].
+  eexists; split; [first [left; reflexivity | right; left; reflexivity
+                         | right; right; left; reflexivity]|vm_compute; reflexivity].
+Qed.
+Print Assumptions only_init_and_setExtrapolate_write_the_modelled_state.
+
 (** non-vacuity: a concrete table satisfying every hypothesis (ideal gas f = -T^4) *)
 Example hypotheses_satisfiable :
   let e := mk_env (fun T => - T ^ 4) (fun T => - T ^ 4) (fun T => - 4 * T ^ 3) (fun T => - 12 * T ^ 2)
                   (fun T => - 4 * T ^ 3) (fun T => - 12 * T ^ 2) 2 1 2 1 in
   tabMinHigh e < tabMaxHigh e /\ 0 < tabMinHigh e /\ dfHigh e (tabMinHigh e) < 0 /\
-  ddfHigh e (tabMinHigh e) < 0 /\ dfHigh e (tabMaxHigh e) < 0 /\ ddfHigh e (tabMaxHigh e) < 0.
+  ddfHigh e (tabMinHigh e) < 0 /\ dfHigh e (tabMaxHigh e) < 0 /\ ddfHigh e (tabMaxHigh e) < 0 /\
+  tabMinLow e < tabMaxLow e /\ 0 < tabMinLow e /\ dfLow e (tabMinLow e) < 0 /\
+  ddfLow e (tabMinLow e) < 0 /\ dfLow e (tabMaxLow e) < 0 /\ ddfLow e (tabMaxLow e) < 0.
 Proof. cbn. repeat split; lra. Qed.
